@@ -304,7 +304,7 @@ func c13PrefixOK(m *Model, rq Req, resp []byte) bool {
 func TestC13(t *testing.T) {
 	r := NewReporter(t)
 	defer r.Done()
-	r.Rule("12 scenarios (plain reads with the default, a 1000-byte and no pooled transfer buffer, generated image DVD/PS3 with lazily opened members, redump with adjacent and with both keys, 3k3y, directory enumeration with symlinks, create/write/delete, dir-size, CD reads); per scenario: fault-free run numbers the N leaf filesystem operations, then an injected error (EIO, EINTR, EAGAIN) at every index, a legal short read (1 byte / half) at every Read, a partial write (half, then ENOSPC) at every Write, a short read followed by EINTR/EAGAIN at the next operations, thorough: every pair of errors (i<j); and connection endings FIN / RST / idle timeout at every script byte position class write failure at every response byte position class, and a reset by a slowly receiving client (4096-byte send buffer, server blocked in Write) at every response byte position class; 2700 requests on one connection and 400 short connections with four kinds of ending on one server; oracles: handle ledger empty after the connection ended, connection closed, fresh connection served, responses = model answer | failure code | correct prefix + disconnect; distinct by (scenario, deviation)")
+	r.Rule("12 scenarios (plain reads with the default, a 1000-byte and no pooled transfer buffer, generated image DVD/PS3 with lazily opened members, redump with adjacent and with both keys, 3k3y, directory enumeration with symlinks, create/write/delete, dir-size, CD reads); per scenario: fault-free run numbers the N leaf filesystem operations, then an injected error (EIO, EINTR, EAGAIN) at every index, a legal short read (1 byte / half) at every Read, a partial write (half, then ENOSPC) at every Write, a short read followed by EINTR/EAGAIN at the next operations, thorough: every pair of deviations of any two kinds (i<j, deviation bound 2); and connection endings FIN / RST / idle timeout at every script byte position class write failure at every response byte position class, and a reset by a slowly receiving client (4096-byte send buffer, server blocked in Write) at every response byte position class; 2700 requests on one connection and 400 short connections with four kinds of ending on one server; oracles: handle ledger empty after the connection ended, connection closed, fresh connection served, responses = model answer | failure code | correct prefix + disconnect; distinct by (scenario, deviation)")
 	w, objs := buildC02World(t, r)
 	defer w.Cleanup()
 	// extras: both-keys image, directory with symlinks, writable dir, CD image
@@ -445,15 +445,21 @@ func TestC13(t *testing.T) {
 						}
 					}
 				}
-				// (2) thorough: a second error at every later index of the diverged run
-				if r.Thorough() && kind == "err" {
+				// (2) thorough: a second deviation of every kind at every later index of the diverged run (bound 2)
+				if r.Thorough() {
 					for j := i + 1; j < res.leafOps && j < len(res.events); j++ {
 						if r.TimeUp() {
 							break
 						}
-						p2 := faultPlan{At: map[int]FsFault{i: p.At[i], j: {Err: syscall.EIO}}, Desc: append(append([]string{}, p.Desc...), sprintf("err@%d:%s(%s)", j, res.events[j].Op, filepath.Base(res.events[j].Path)))}
-						res2 := c13Run(t, w.Root, sc, mk, p2, resetW)
-						judge(p2, res2, "fault2")
+						for _, kind2 := range []string{"err", "eintr", "eagain", "short1", "shorthalf", "wpartial"} {
+							q, ok := one(j, res.events[j], kind2)
+							if !ok {
+								continue
+							}
+							p2 := faultPlan{At: map[int]FsFault{i: p.At[i], j: q.At[j]}, Desc: append(append([]string{}, p.Desc...), q.Desc...)}
+							res2 := c13Run(t, w.Root, sc, mk, p2, resetW)
+							judge(p2, res2, "fault2")
+						}
 					}
 				}
 			}
